@@ -49,6 +49,7 @@ func TestVerifStress(t *testing.T) {
 		var accepted sync.Map // value -> true when its Set returned true
 		var deadline sync.Map // value -> expiration instant (sweep phase only)
 		var early, getCalls atomic.Int64
+		var tornSeen atomic.Bool
 		var sweepPhase atomic.Bool
 		cfg := &Config[uint64, uint64]{
 			NumCounters:        []int64{2, 64, 1 << 12}[rng.Intn(3)],
@@ -213,6 +214,16 @@ func TestVerifStress(t *testing.T) {
 						if c.Metrics != nil {
 							_ = c.Metrics.Hits() + c.Metrics.Misses() + c.Metrics.KeysAdded() + c.Metrics.CostAdded()
 							_ = c.Metrics.String()
+							// the life-expectancy histogram is copied under Metrics.mu while the applier updates it
+							if h := c.Metrics.LifeExpectancySeconds(); h != nil {
+								var sum int64
+								for _, x := range h.CountPerBucket {
+									sum += x
+								}
+								if sum != h.Count && tornSeen.CompareAndSwap(false, true) {
+									fmt.Printf("stress torn: round %d: LifeExpectancySeconds() snapshot has Count=%d but its buckets sum to %d\n", r, h.Count, sum)
+								}
+							}
 						}
 					}
 					_ = name
